@@ -4,7 +4,7 @@ From Coq Require Import List String Bool Arith.
 From Coq Require Import Floats.PrimFloat.
 From PAFCommon Require Import PyFloat.
 From PAFC01 Require Import ModelTree Model Proofs2 Proofs3.
-From PAFC08 Require Import Model Lib Proofs1 Proofs2 Proofs3 Proofs4.
+From PAFC08 Require Import Model Lib Proofs1 Proofs2 Proofs3 Proofs4 Proofs5 Proofs6.
 Import ListNotations.
 Local Open Scope string_scope.
 Local Open Scope list_scope.
@@ -144,3 +144,17 @@ Proof. eexists. vm_compute. reflexivity. Qed.
 
 Example ex_mono_hyp : mono_on (fun q => q + 3) (prior_ids float (ftree ex)).
 Proof. intros a b _ _ H. apply Nat.add_lt_mono_r. exact H. Qed.
+
+(* hypotheses of the theorems about models with arithmetic priors (C08_db_arith, C08_dict_arith) *)
+Example arith_hyps :
+  forall_nodes float (dict_node_ok2 float ffalsy cfg_pinned) w_arith = true /\
+  all_occs float (occ_ok float cfg_pinned) w_arith = true /\
+  forall_nodes float (db_chain_ok float cfg_pinned) w_arith = true /\ all_occs float (db_occ_ok float cfg_pinned) w_arith = true.
+Proof. repeat split; vm_compute; reflexivity. Qed.
+
+Example arith_wf : wf float (ftree w_arith).
+Proof. simpl. repeat split; try discriminate; repeat (constructor; [simpl; intuition discriminate|]); constructor. Qed.
+
+(* the message-id table of C08_db_pinned for the prior-passed example *)
+Example passed_mu : forall p sp, In (p, sp) (occs float w_passed) -> ps_mid float sp = Some ((fun q => if Nat.eqb q 0 then 5 else q) p).
+Proof. intros p sp H. simpl in H. destruct H as [H|[H|[]]]; inversion H; subst; reflexivity. Qed.
